@@ -21,7 +21,7 @@ READY = True
 DRIVER = "dm_hlg"
 LEAN_MODULES = ["DaskModel.Props.C19"]
 TABLES = ["UfuncTable"]
-CASE_TIMEOUT_S = 20
+CASE_TIMEOUT_S = 60   # the first case of a run also pays the import of dask.array (slow on a loaded machine)
 LEVEL_TEXT = ("Lean 4 theorems over a transliteration of broadcast_shapes, common_blockdim, unify_chunks and the block plan "
               "of dask.array.core.elemwise: `broadcastShapes_eq_np` (dask's broadcast_shapes — fill value -1, `dim = 0 if 0 in "
               "sizes else max`, reject sizes outside [-1,0,1,dim] — accepts exactly the shape lists NumPy's right-aligned rule "
@@ -513,6 +513,21 @@ def case_outname(ctx, inp):
         ctx.fail("ufunc(where=, out=) differs from NumPy when computed alone")
     if not same(e1, e2):
         ctx.branch("out-shows-through-mask")
+    # an `out` of another shape is rejected (NumPy: "non-broadcastable output operand"), never silently rebound
+    wrong = list(shape) + [2]
+    try:
+        f_np(*args_np, out=np.zeros(wrong))
+        np_rejects = False
+    except ValueError:
+        np_rejects = True
+    dbad = da.zeros(wrong, chunks=1)
+    try:
+        f_da(*dargs, out=dbad)
+        ctx.fail("ufunc(out=array of another shape) was accepted" if np_rejects else "out= of a broadcast-larger shape accepted")
+    except ValueError:
+        ctx.branch("out-shape-mismatch-rejected")
+    if dbad.shape != tuple(wrong):
+        ctx.fail("a rejected out= array was modified", observed=list(dbad.shape))
     ctx.branch("outname")
 
 
